@@ -256,3 +256,123 @@ theorem approxIsoTreesH_correct (g : Graph) (hs : g.simpleB = true) (hp : g.posi
     (mcbFvsTrees_correct _ hss hsp order ho picks hpicks sorter hsort)
 
 end Parmcb
+
+namespace Parmcb
+open Parmcb.C01 Parmcb.C02
+
+namespace HeapAlgoL
+open SignedAlgoL
+
+/-- oracles of the single-edge shortcut: index = edge -/
+noncomputable def pkS (g : Graph) (ord : List Nat) : PickFam :=
+  fun e L => pickFor g ord [] [e] (g.src e) true (g.tgt e) true L
+
+theorem evalReduce_congr {C : Type} (f f' : Nat → Option Int → Cyc C) (lo hi : Nat)
+    (h : ∀ i L, lo ≤ i → i < hi → f i L = f' i L) {s : Sched} {a b : Nat} (hs : s.Covers a b)
+    (ha : lo ≤ a) (hb : b ≤ hi) (x : Cyc C) :
+    evalReduce (minBody f) cycleMin none s x = evalReduce (minBody f') cycleMin none s x := by
+  induction hs generalizing x with
+  | leaf a b hab =>
+    simp only [evalReduce]
+    unfold minBody
+    apply foldl_congr_mem
+    intro r i hi'
+    have := List.mem_range'_1.1 hi'
+    rw [h i _ (by omega) (by omega)]
+  | @seq l r a mid b hl hr ihl ihr =>
+    have h1 := hl.le
+    have h2 := hr.le
+    simp only [evalReduce]
+    rw [ihl ha (by omega) x, ihr (by omega) hb]
+  | @fork l r a mid b hl hr ihl ihr =>
+    have h1 := hl.le
+    have h2 := hr.le
+    simp only [evalReduce]
+    rw [ihl ha (by omega) x, ihr (by omega) hb]
+
+theorem reduceMin_congr {C : Type} (f f' : Nat → Option Int → Cyc C) (lo hi : Nat)
+    (h : ∀ i L, lo ≤ i → i < hi → f i L = f' i L) {s : Sched} (hs : s.Covers lo hi) :
+    reduceMin f s = reduceMin f' s :=
+  evalReduce_congr f f' lo hi h hs (Nat.le_refl _) (Nat.le_refl _) none
+
+theorem allVerticesTbbH_eq (g : Graph) (ord : List Nat) (hs : g.simpleB = true) (hp : g.positiveB = true)
+    (S : List Nat) (s : Sched) (hcov : s.Covers 0 g.n) :
+    allVerticesTbbH g ord S s = allVerticesTbb g ord (pkA g ord S) S s := by
+  unfold allVerticesTbbH allVerticesTbb
+  apply reduceMin_congr _ _ 0 g.n _ hcov
+  intro v L _ hv
+  exact pickFor_spec g ord hs hp S [] v true v false L hv hv
+
+theorem hiddenTbbH_eq (g : Graph) (ord : List Nat) (hs : g.simpleB = true) (hp : g.positiveB = true)
+    (S σ : List Nat) (hnd : σ.Nodup) (hσm : ∀ e ∈ σ, e < g.m) (s : Sched) (hcov : s.Covers 0 σ.length) :
+    hiddenTbbH g ord S σ s = hiddenTbb g ord (pkH g ord S σ) S σ s := by
+  unfold hiddenTbbH hiddenTbb
+  apply reduceMin_congr _ _ 0 σ.length _ hcov
+  intro i L _ hi
+  unfold hiddenIndexTbbH hiddenIndexTbb
+  rw [List.getElem?_eq_getElem hi]
+  simp only
+  have hf := simpleB_facts g hs σ[i] (hσm _ (List.getElem_mem hi))
+  unfold hiddenSearch pkH
+  rw [hnd.idxOf_getElem i hi]
+  rw [pickFor_spec g ord hs hp S (σ.drop i) _ true _ true L hf.1 hf.2.1]
+
+theorem singleEdgeTbbH_eq (g : Graph) (ord : List Nat) (hs : g.simpleB = true) (hp : g.positiveB = true)
+    (e : Nat) (he : e < g.m) : singleEdgeTbbH g ord e = singleEdgeTbb g ord (pkS g ord) e := by
+  have hf := simpleB_facts g hs e he
+  unfold singleEdgeTbbH singleEdgeTbb pkS
+  rw [pickFor_spec g ord hs hp [] [e] _ true _ true none hf.1 hf.2.1]
+
+theorem tbbH_general (g : Graph) (ord : List Nat) (hs : g.simpleB = true) (hp : g.positiveB = true)
+    (S : List Nat) (hS : StrictSorted S) (hSm : ∀ e ∈ S, e < g.m)
+    (σ : List Nat) (hσ : σ.Perm S) (hex : ∃ Z, EvenSet g Z ∧ dotPar Z S = true)
+    (s : Sched) (hcov : s.Covers 0 (if g.n ≤ S.length then g.n else S.length)) :
+    PhaseFound g S (if g.n ≤ S.length then allVerticesTbbH g ord S s else hiddenTbbH g ord S σ s) := by
+  by_cases hn : g.n ≤ S.length
+  · have h := tbb_general g ord hs hp (pkA g ord S) (fun i L => pickFor_ok _ _ _ _ _ _ _ _ _)
+      S hS hSm σ hσ hex s hcov
+    rw [if_pos hn] at h hcov ⊢
+    rw [allVerticesTbbH_eq g ord hs hp S s hcov]
+    exact h
+  · have h := tbb_general g ord hs hp (pkH g ord S σ) (fun i L => pickFor_ok _ _ _ _ _ _ _ _ _)
+      S hS hSm σ hσ hex s hcov
+    rw [if_neg hn] at h hcov ⊢
+    rw [← hσ.length_eq] at hcov
+    rw [hiddenTbbH_eq g ord hs hp S σ (hσ.nodup_iff.2 hS.nodup) (fun e he => hSm e (hσ.mem_iff.1 he)) s hcov]
+    exact h
+
+end HeapAlgoL
+
+/-- one phase of `mcb_sva_signed_tbb` on literal heaps, under every execution of the `parallel_reduce` -/
+theorem signedPhaseSearchTbbH_ok (g : Graph) (ord : List Nat) (hs : g.simpleB = true) (hp : g.positiveB = true)
+    (S : List Nat) (hS : StrictSorted S) (hSm : ∀ e ∈ S, e < g.m)
+    (σ : List Nat) (hσ : σ.Perm S) (hex : ∃ Z, EvenSet g Z ∧ dotPar Z S = true)
+    (s : Sched) (hcov : s.Covers 0 (if g.n ≤ S.length then g.n else S.length)) :
+    SignedAlgoL.PhaseFound g S (signedPhaseSearchTbbH g ord σ S s) := by
+  open HeapAlgoL in
+  match S, hS, hSm, hσ, hex, hcov with
+  | [], hS, hSm, hσ, hex, hcov => exact tbbH_general g ord hs hp [] hS hSm σ hσ hex s hcov
+  | [e], hS, hSm, hσ, hex, hcov =>
+    have h := SignedAlgoL.signedPhaseSearchTbb_ok g ord hs hp (pkS g ord) (fun i L => pickFor_ok _ _ _ _ _ _ _ _ _)
+      [e] hS hSm σ hσ hex s hcov
+    show SignedAlgoL.PhaseFound g [e] (singleEdgeTbbH g ord e)
+    rw [singleEdgeTbbH_eq g ord hs hp e (hSm e List.mem_cons_self)]
+    exact h
+  | a :: b :: rest, hS, hSm, hσ, hex, hcov =>
+    exact tbbH_general g ord hs hp (a :: b :: rest) hS hSm σ hσ hex s hcov
+
+/-- **`mcb_sva_signed_tbb` with the real heaps, end to end** -/
+theorem mcbSignedTbbH_correct (g : Graph) (hs : g.simpleB = true) (hp : g.positiveB = true)
+    (order : List Nat) (ho : order.Perm (List.range g.n))
+    (σ : Nat → List Nat → List Nat) (hσ : ∀ k S, (σ k S).Perm S)
+    (perm : List Nat) (hperm : perm.Perm (List.range (createIndex g order).dim))
+    (scheds : Nat → List Nat → Sched)
+    (hcov : ∀ k S, (scheds k S).Covers 0 (if g.n ≤ S.length then g.n else S.length)) :
+    McbCorrect g order (mcbSignedTbbH g order σ perm scheds) := by
+  have hd := C16.c16_exact_domain g order hs hp ho
+  have hp0 : (perm.map fun i => [i]).Perm (unitSupports (createIndex g order).dim) := hperm.map _
+  exact SignedAlgoL.mcb_correct_of_core g hs hp order ho .signedTbb _ hp0 _
+    (fun k S hS hSm hex => signedPhaseSearchTbbH_ok _ _ hd.simple hd.positive S hS hSm
+      (σ k S) (hσ k S) hex (scheds k S) (hcov k S))
+
+end Parmcb
